@@ -6,6 +6,7 @@ LEVEL = 'proof'
 
 
 def run(rep):
+    enginep.unify_deductive(rep)      # facts are matched by unification: the unify family against su (C02's contracts)
     enginep.engine_deductive(rep, enginep.DB_FUNS)
     q = rep.tier == 'quick'
     own = [r for r in rep.obligations if '.ownership.' in r['name']]
